@@ -6,7 +6,7 @@ Local Open Scope string_scope.
 
 Theorem C09_build_shape :
   forall O E h a cseg c claims alg aud jalg kb,
-    jwt_parts_m (h_jwt h) = Val (a, cseg, c) -> o_claims O cseg = Ok claims -> jhas "cnf" claims = true ->
+    jwt_parts_m (h_jwt h) = Val (a, cseg, c) -> o_claims O cseg = Ok claims -> kb_bound claims = true ->
     declared_halg claims = Some alg -> h_kb h = Some (aud, jalg) ->
     e_sign E (kb_header jalg) (kb_claims aud (e_nonce E) (e_iat E) (o_hash O alg (presentation_prefix (h_jwt h) (selected h)))) = Val kb ->
     holder_build O E h = Val (presentation_prefix (h_jwt h) (selected h) ++ kb).
